@@ -130,6 +130,63 @@ def unwrap_fields(fn, idname, attr_targets):
     return res
 
 
+ITY = {'int8': 'I8', 'uint8': 'U8', 'int16': 'I16', 'uint16': 'U16', 'int32': 'I32', 'uint32': 'U32',
+       'int64': 'I64', 'uint64': 'U64'}
+
+
+def to_texpr(node, env, subst=None):
+    """Typed form (Lib/NumpyInt.texpr) of a packing expression: keeps the astype casts that to_gallina erases.
+    env: python name -> index; subst: python name -> texpr text replacing the variable (for composed assignments)."""
+    subst = subst or {}
+    if isinstance(node, ast.Name):
+        if node.id in subst:
+            return subst[node.id]
+        if node.id in env:
+            return '(TVar %d%%nat)' % env[node.id]
+        raise P.Unrecognised('free name %s' % node.id)
+    if isinstance(node, ast.BinOp):
+        if isinstance(node.op, ast.LShift):
+            return '(TShl %s %s)' % (to_texpr(node.left, env, subst), P.zlit(P.const_value(node.right)))
+        if isinstance(node.op, ast.BitOr):
+            return '(TOr %s %s)' % (to_texpr(node.left, env, subst), to_texpr(node.right, env, subst))
+        if isinstance(node.op, ast.Sub):
+            return '(TSubLit %s %s)' % (to_texpr(node.left, env, subst), P.zlit(P.const_value(node.right)))
+        raise P.Unrecognised('typed operator %s' % type(node.op).__name__)
+    if isinstance(node, ast.Call):
+        f = node.func
+        if isinstance(f, ast.Attribute) and f.attr == 'astype' and len(node.args) == 1 and not node.keywords:
+            a = node.args[0]
+            if isinstance(a, ast.Attribute) and a.attr in ITY:
+                return '(TCast %s %s)' % (ITY[a.attr], to_texpr(f.value, env, subst))
+            raise P.Unrecognised('astype target')
+        if isinstance(f, ast.Attribute) and f.attr == 'bitwise_or' and len(node.args) == 2:
+            return '(TOr %s %s)' % (to_texpr(node.args[0], env, subst), to_texpr(node.args[1], env, subst))
+        raise P.Unrecognised('typed call %s' % ast.dump(f)[:60])
+    raise P.Unrecognised('typed node %s' % type(node).__name__)
+
+
+def mjd_array_texpr(fn, env):
+    """What the array branch of `if isinstance(mjd, int)` does to mjd, as a typed expression of the argument."""
+    for st in fn.body:
+        if isinstance(st, ast.If) and isinstance(st.test, ast.Call) and isinstance(st.test.func, ast.Name) \
+                and st.test.func.id == 'isinstance' and isinstance(st.test.args[0], ast.Name) \
+                and st.test.args[0].id == 'mjd':
+            cur = '(TVar %d%%nat)' % env['mjd']
+            for s in st.orelse:
+                if isinstance(s, ast.Assign) and len(s.targets) == 1 and isinstance(s.targets[0], ast.Name) \
+                        and s.targets[0].id == 'mjd':
+                    cur = to_texpr(fold(s.value), env, {'mjd': cur})
+                elif isinstance(s, ast.AugAssign) and isinstance(s.target, ast.Name) and s.target.id == 'mjd' \
+                        and isinstance(s.op, ast.Sub):
+                    cur = '(TSubLit %s %s)' % (cur, P.zlit(P.const_value(s.value)))
+                elif isinstance(s, ast.Pass):
+                    pass
+                else:
+                    raise P.Unrecognised('statement in the array branch of the mjd conversion')
+            return cur
+    raise P.Unrecognised('isinstance(mjd, int) branch not found')
+
+
 def defn(name, args, body):
     return 'Definition %s (%s : Z) : Z :=\n  %s.\n' % (name, ' '.join(args), body)
 
@@ -143,7 +200,7 @@ def generate(repo):
     sdss_src = open(os.path.join(repo, 'pydl/pydlutils/sdss.py')).read()
     photo_src = open(os.path.join(repo, 'pydl/photoop/photoobj.py')).read()
     out = ['(* GENERATED by translate/c06.py from pydl/pydlutils/sdss.py and pydl/photoop/photoobj.py -- do not edit *)',
-           'From Coq Require Import ZArith List.', 'Import ListNotations.', 'Open Scope Z_scope.', '']
+           'From Coq Require Import ZArith List.', 'From PV Require Import Lib.NumpyInt.', 'Import ListNotations.', 'Open Scope Z_scope.', '']
     try:
         t1 = ast.parse(sdss_src)
         t2 = ast.parse(photo_src)
@@ -156,6 +213,7 @@ def generate(repo):
         casts = []
         out.append('(* sdss_objid, source line %d *)' % a.lineno)
         out.append(defn('objid_expr', OBJID_ARGS, P.to_gallina(fold(a.value), {x: x for x in OBJID_ARGS}, casts)))
+        out.append('Definition objid_texpr : texpr :=\n  %s.\n' % to_texpr(fold(a.value), {x: i for i, x in enumerate(OBJID_ARGS)}))
         ch = checks_of(f_obj, OBJID_ARGS)
         out.append('Definition objid_checks : list (nat * Z * Z) := %s.\n' % checks_lit(ch))
         info['objid_check_exceptions'] = sorted(set(c[3] for c in ch))
@@ -164,6 +222,10 @@ def generate(repo):
         casts = []
         out.append('(* sdss_specobjid, source line %d *)' % a.lineno)
         out.append(defn('specobjid_expr', SPEC_ARGS, P.to_gallina(fold(a.value), {x: x for x in SPEC_ARGS}, casts)))
+        senv = {x: i for i, x in enumerate(SPEC_ARGS)}
+        out.append('Definition specobjid_texpr : texpr :=\n  %s.\n' % to_texpr(fold(a.value), senv))
+        out.append('(* the array branch of the MJD conversion, as a typed expression of the mjd argument *)')
+        out.append('Definition mjd_array_texpr : texpr :=\n  %s.\n' % mjd_array_texpr(f_spec, senv))
         ch = checks_of(f_spec, SPEC_ARGS)
         out.append('Definition specobjid_checks : list (nat * Z * Z) := %s.\n' % checks_lit(ch))
         info['specobjid_check_exceptions'] = sorted(set(c[3] for c in ch))
